@@ -33,6 +33,11 @@ socket refuses with EMSGSIZE once the SOCKS header is added (hmc.udpharness.CapS
 OSError from sendto goes to error_received, nothing is raised).  Oracle: no sendto, session / circuit / association
 state unchanged (fault-zero-sends, fault-state-unchanged; for so_big exactly one refused sendto to the right viewer and
 unchanged liveness), later valid datagrams delivered exactly once.  connection_lost is outside the statement.
+SOCKS control seam (``control_scenarios``): both associations are created by the real ``SLSOCKS5Server.handle_connection``
+on in-memory StreamReader / writer stand-ins (greeting + UDP ASSOCIATE; only ``loop.create_datagram_endpoint`` is replaced
+by one that calls the protocol factory and hands it the capturing socket); ("c_close", i) = EOF on viewer i's control
+connection.  Clauses teardown-isolated (nothing of the *other* viewer changes, no sendto, handler ends cleanly) and
+teardown-own (X's own association/session are gone); later traffic of the surviving viewer under the usual clauses.
 Packet ids come from per-circuit per-direction counters in the model (they are part of canon; finiteness is by depth).
 
 Oracle (one clause per sentence of the statement):
@@ -135,7 +140,7 @@ def _template_msg(name: str, pid: int, flags: int = 0) -> bytes:
 
 
 def _is_deviation(ev) -> bool:
-    return ev[0].startswith("g_") or ev[0] in ("e_oserr", "so_big", "vx", "sx")
+    return ev[0].startswith("g_") or ev[0] in ("e_oserr", "so_big", "vx", "sx", "c_close")
 
 
 def liveness(st):
@@ -158,6 +163,7 @@ class Model:
         self.claimed = [False, False]
         self.open = set()           # (association, region) with a circuit object (alive or dead)
         self.dead = set()           # subset of open: killed by CloseCircuit / DisableSimulator, not yet re-opened
+        self.gone = set()           # associations whose SOCKS control connection has ended
         self.next_pid: Dict[Tuple[int, int, str], int] = {}
 
     @staticmethod
@@ -181,7 +187,8 @@ class Model:
         return (i, j) in self.open and (i, j) not in self.dead
 
     def key(self):
-        return (tuple(self.claimed), tuple(sorted(self.open)), tuple(sorted(self.dead)), tuple(sorted(self.next_pid.items())))
+        return (tuple(self.claimed), tuple(sorted(self.open)), tuple(sorted(self.dead)), tuple(sorted(self.next_pid.items())),
+                tuple(sorted(self.gone)))
 
 
 class Harness:
@@ -189,12 +196,15 @@ class Harness:
 
     def __init__(self, n_sessions: int = 2, base: str = "empty", neighbour_handle: Any = "mixed"):
         self.n = n_sessions
-        self.base = base
+        # base "socks:<base>": the associations come out of the real SOCKS5 control path (SLSOCKS5Server.handle_connection
+        # on in-memory streams) and the control connections can end: event ("c_close", i)
+        self.via_socks = base.startswith("socks:")
+        self.base = base[6:] if self.via_socks else base
         self.neighbour_handle = neighbour_handle
 
     # ---- world ------------------------------------------------------------------------------------
     def fresh(self):
-        w = U.fresh(self.n, neighbour_handle=self.neighbour_handle)
+        w = U.fresh(self.n, neighbour_handle=self.neighbour_handle, via_socks=self.via_socks)
         w.model = Model()
         w.last = None
         w.flags = set()
@@ -213,6 +223,8 @@ class Harness:
     def valid_events(self, m: Model):
         evs = []
         for i in range(self.n):
+            if i in m.gone:
+                continue
             for j in (0, 1):
                 evs.append(("U", i, j))
                 if m.alive(i, j):
@@ -339,6 +351,8 @@ class Harness:
             d.update(cls="oversize", dir=IN, j=j)
         elif k == "e_oserr":
             d.update(cls="fault", data=b"", src=None, lludp=b"")
+        elif k == "c_close":
+            d.update(cls="control-close", data=b"", src=None, lludp=b"")
         elif k == "g_foreign":
             sim(_chat_in(i, GARBAGE_PID, 0x40), U.FOREIGN_HOST)
         elif k == "g_unreg":
@@ -416,6 +430,8 @@ class Harness:
             import os
             code = getattr(errno, ev[2])
             sends, exc = w.os_error(i, OSError(code, os.strerror(code)))
+        elif d["cls"] == "control-close":
+            sends, exc, task_done = w.close_control(i)
         else:
             sends, exc = w.deliver(i, d["data"], d["src"])
         after = tuple(w.session_state(x) for x in range(self.n))
@@ -425,7 +441,24 @@ class Harness:
         def bad(clause, site, detail):
             w.violations.append({"clause": clause, "site": site, "detail": detail})
 
-        if d["cls"] == "fault":
+        if d["cls"] == "control-close":
+            site = "SOCKS5Server.handle_connection:teardown"
+            m.gone.add(i)
+
+            def own(st):    # everything but the global number of sessions
+                return st[:5] + st[6:]
+            if sends or exc is not None or not task_done:
+                bad("teardown-isolated", site, f"control connection {i} ended: {len(sends)} sendto, exception {exc!r}, handler finished={task_done}")
+            for x in range(self.n):
+                if x == i or x in m.gone:
+                    continue
+                if own(before[x]) != own(after[x]) or w.sessions[x] not in w.sm.sessions:
+                    bad("teardown-isolated", site, f"the end of viewer {i}'s control connection changed viewer {x}'s association/session: "
+                                                   f"before={before[x]!r} after={after[x]!r} still registered={w.sessions[x] in w.sm.sessions}")
+            # (a session this association never claimed is a pending login and stays)
+            if not after[i][6] or after[i][1] is not None or (m.claimed[i] and w.sessions[i] in w.sm.sessions):
+                bad("teardown-own", site, f"viewer {i}'s control connection ended but its own association/session is still up: {after[i]!r}")
+        elif d["cls"] == "fault":
             site = "fault:error_received:" + ev[2]
             if sends or exc is not None:
                 bad("fault-zero-sends", site, f"socket error reported to association {i}: {len(sends)} sendto, exception {exc!r}")
@@ -733,6 +766,10 @@ def _is_enabled(h, w, ev) -> bool:
         return True
     if ev[0] == "e_oserr":
         return True
+    if ev[0] == "c_close":
+        return h.via_socks and ev[1] not in w.model.gone
+    if ev[1] in w.model.gone:
+        return False
     if ev[0] == "so_big":
         return w.model.alive(ev[1], ev[2])
     if ev[0] in ("vx", "sx"):
@@ -762,6 +799,33 @@ def _interleave_worker(item):
     for v in viols:
         part.violation(v["clause"], v["site"], {"kind": "interleave", "base": base, "history": [list(e) for e in hist], "seed": _SEED}, v["detail"])
     return part.dump()
+
+
+def control_scenarios():
+    """Associations x teardown at the SOCKS control seam.  Both viewers come in through the real control path
+    (``socks:`` bases), each with its own UDP association and claimed session; every sequence of length <= 4 over
+    {traffic on A, traffic on B (both directions), control connection A ends, control connection B ends}: ending X tears
+    down X only; every later datagram of the other viewer is relayed exactly once, its session/circuits stay as they were."""
+    import itertools
+    alphabet = [("vo", 0, 0), ("so", 0, 0), ("vr", 1, 0), ("sr", 1, 0), ("c_close", 0), ("c_close", 1)]
+    for n in range(1, 5):
+        for seq in itertools.product(alphabet, repeat=n):
+            if not any(e[0] == "c_close" for e in seq):
+                continue
+            gone, ok = set(), True
+            for e in seq:
+                if e[1] in gone:
+                    ok = False
+                    break
+                if e[0] == "c_close":
+                    gone.add(e[1])
+            if ok:
+                yield ("socks:main-open", seq)
+    # the other region, and the four-circuit base
+    for i in (0, 1):
+        yield ("socks:all-open", (("c_close", i), ("vo", 1 - i, 0), ("so", 1 - i, 1), ("vr", 1 - i, 1), ("sr", 1 - i, 0), ("U", 1 - i, 0)))
+        yield ("socks:all-open", (("so", i, 1), ("c_close", i), ("sx", 1 - i, 1, "same"), ("vc", 1 - i, 1), ("U", 1 - i, 1), ("so", 1 - i, 1)))
+        yield ("socks:empty", (("c_close", i), ("U", 1 - i, 0), ("vo", 1 - i, 0), ("so", 1 - i, 0)))
 
 
 def resend_scenarios():
@@ -902,6 +966,9 @@ def run(run: Run):
         items = [it for it in items if len(it[1]) == 2 or it[0] == "one-open"]
     items += list(reopen_scenarios())
     items += list(resend_scenarios())
+    n_ctl = len(items)
+    items += list(control_scenarios())
+    run.coverage_extra.update(control_scenarios=len(items) - n_ctl)
     items += list(repeated_garbage("one-open")) + list(repeated_garbage("all-open"))
     n_il = len(items)
     items += list(flood_scenarios(quick))
